@@ -25,6 +25,7 @@ import (
 	"fmt"
 	"os"
 	"path/filepath"
+	"runtime"
 	"sort"
 	"strconv"
 	"strings"
@@ -121,6 +122,12 @@ type Kind struct {
 	GcFly     bool          // GcCanceledInvoicesOnTheFly
 	GcStart   bool          // GcCanceledInvoicesOnStartup
 	AcceptAll bool          // AcceptKeySend and AcceptAMP although an invoice exists up front
+	// Watch: the invoice expiry watcher is LIVE (axis audit): it reads a harness clock that the
+	// "X" event moves past the invoice's expiry time, and every "b" event hands it a block epoch.
+	// HoldDelta is its block expiry delta (lnd: HoldExpiryDelta), one below the margin, so that an
+	// accepted HTLC with the exact margin expires for the watcher one block after it arrived.
+	Watch     bool
+	HoldDelta uint32
 }
 
 var kinds = map[string]Kind{
@@ -146,7 +153,25 @@ var kinds = map[string]Kind{
 	"regular-jit": {Name: "regular-jit", Value: valueV, InvDelta: 12, AcceptAll: true},
 	// zero-amount hold invoice, reject delta binding
 	"holdzero": {Name: "holdzero", Value: 0, Hold: true, InvDelta: 8},
+
+	// --- live invoice expiry watcher (time expiry "X", block epochs on "b")
+	"regular-x": {Name: "regular-x", Value: valueV, InvDelta: 12, Watch: true, HoldDelta: 11},
+	"hold-x":    {Name: "hold-x", Value: valueV, Hold: true, InvDelta: 12, Watch: true, HoldDelta: 11},
+	"hold-gc-x": {Name: "hold-gc-x", Value: valueV, Hold: true, InvDelta: 12, GcFly: true, GcStart: true, Watch: true, HoldDelta: 11},
+	"amp-x":     {Name: "amp-x", Value: valueV, AMP: true, InvDelta: 12, Watch: true, HoldDelta: 11},
+	// just-in-time keysend invoices carry no payment request: the watcher cancels them FORCED at
+	// their time expiry (accepted ones too)
+	"keysend-x": {Name: "keysend-x", JIT: "keysend", InvDelta: rejectDelta, Watch: true, HoldDelta: uint32(rejectDelta) - 1},
+	"kshold-x":  {Name: "kshold-x", JIT: "keysend", InvDelta: rejectDelta, KsHold: ksHoldTime, Watch: true, HoldDelta: uint32(rejectDelta) - 1},
 }
+
+// invoiceLife is the Terms.Expiry of the invoice under test in a Watch world, expiryJump what the
+// "X" event adds to the watcher's clock: past the invoice under test (and past a just-in-time
+// keysend invoice: KeysendHoldTime or the one-hour default), short of the bystander's 1000 h.
+const (
+	invoiceLife = 500 * time.Hour
+	expiryJump  = 600 * time.Hour
+)
 
 // margin is the final-CLTV margin an accepted HTLC must leave on this kind.
 func (k Kind) margin() int32 {
@@ -186,6 +211,9 @@ func (k Kind) invoice() *invpkg.Invoice {
 		},
 		HodlInvoice: k.Hold,
 	}
+	if k.Watch {
+		inv.Terms.Expiry = invoiceLife
+	}
 	if !k.Hold && !k.AMP {
 		p := invPreimage
 		inv.Terms.PaymentPreimage = &p
@@ -216,7 +244,9 @@ type htlcSpec struct {
 	// 'L' legacy, 'M' mpp record, 'P' blinded path id + total, 'K' keysend record, 'A' amp+mpp,
 	// 'Z' mpp record on an HTLC locked to the ALL-ZERO payment hash,
 	// 'Y' mpp record on an HTLC locked to the payment hash of the BYSTANDER invoice, 'y' legacy HTLC locked to it,
-	// 'k' keysend record on an HTLC locked to the hash of the invoice under test (no mpp record)
+	// 'k' keysend record on an HTLC locked to the hash of the invoice under test (no mpp record),
+	// 'a' AMP record WITHOUT an mpp record on an HTLC locked to the hash of the invoice under test
+	//     ("a<set><shard>": update.go `ctx.amp != nil && ctx.mpp == nil`, processAMP "no MPP record")
 	Pay   byte
 	Addr  byte // 'r' right, 'w' wrong (non-zero), 'z' all-zero (BlankPayAddr), 'o' the bystander invoice's address, 0 no record
 	Tot   byte // '-' v-1, '0' v, '+' v+1, 'z' zero, 'H' 2^62, 'G' 2^63, 0 none
@@ -290,6 +320,14 @@ func parseHTLC(op string) (htlcSpec, error) {
 			s.Zero = true
 		default:
 			return s, fmt.Errorf("bad pay %q", p)
+		}
+	case 'a':
+		if len(p) != 3 {
+			return s, fmt.Errorf("bad pay %q", p)
+		}
+		s.Set, s.Shard = int(p[1]-'0'), p[2]
+		if s.Set < 1 || s.Set > 3 {
+			return s, fmt.Errorf("bad set in %q", p)
 		}
 	case 'A':
 		if len(p) != 6 {
@@ -447,6 +485,9 @@ func (s htlcSpec) payload() *payload {
 		if s.KsMpp {
 			p.mpp = record.NewMPP(lnwire.MilliSatoshi(valueV), rightAddr)
 		}
+	case 'a':
+		c := ampChild(s.Set, s.Shard)
+		p.amp = record.NewAMP([32]byte(c.Share), ampSetIDs[s.Set], c.Index)
 	case 'A':
 		c := ampChild(s.Set, s.Shard)
 		share := [32]byte(c.Share)
@@ -1035,6 +1076,16 @@ type side struct {
 	armed   map[int]bool
 	starts  int
 	stalled string
+	// live expiry watcher (kind.Watch): its clock, the block-epoch channel of the running
+	// instance, the runtime id of its mainLoop goroutine, the height it was told last, and
+	// tsQueued: the running watcher INSTANCE holds a time-expiry entry for the invoice under test
+	// (pushed when the invoice was added or found Open at start-up; an invoice found Accepted at
+	// start-up gets none) -- provenance of rebuilt in-memory state, part of the world key.
+	wclk     *vclock
+	epochs   chan *chainntnfs.BlockEpoch
+	wgid     int64
+	wHeight  int32
+	tsQueued bool
 }
 
 func newSide(name string, k Kind, two bool, ks *keyScheme) (*side, error) {
@@ -1042,6 +1093,8 @@ func newSide(name string, k Kind, two bool, ks *keyScheme) (*side, error) {
 		gate: newTxGate(), icpt: &keyedInterceptor{}}
 	s.dbClk = clock.NewTestClock(startTime)
 	s.clk = newVclock(startTime)
+	s.wclk = newVclock(startTime)
+	s.wHeight = baseHeight
 	var err error
 	if name == "kv" {
 		s.raw, s.closer, err = openKV(s.dbClk)
@@ -1060,6 +1113,7 @@ func newSide(name string, k Kind, two bool, ks *keyScheme) (*side, error) {
 			s.close()
 			return nil, fmt.Errorf("add invoice (%s): %w", name, err)
 		}
+		s.tsQueued = true
 	}
 	if two {
 		if _, err := s.reg.AddInvoice(context.Background(), bystanderInvoice(), otherHash); err != nil {
@@ -1075,11 +1129,16 @@ func newSide(name string, k Kind, two bool, ks *keyScheme) (*side, error) {
 func (s *side) start() error {
 	// The expiry watcher gets a clock of its own that never advances and no block
 	// epochs: invoice expiry (time- or height-based) is not an event of this universe.
+	// (Kinds with Watch: the watcher is live -- see waitWatcherIdle.)
 	watcher := invpkg.NewInvoiceExpiryWatcher(
 		clock.NewTestClock(startTime), 0, uint32(baseHeight), nil,
 		&nullNotifier{ch: make(chan *chainntnfs.BlockEpoch)},
 	)
 	k := s.kind
+	if k.Watch {
+		s.epochs = make(chan *chainntnfs.BlockEpoch)
+		watcher = invpkg.NewInvoiceExpiryWatcher(s.wclk, k.HoldDelta, uint32(s.wHeight), nil, &nullNotifier{ch: s.epochs})
+	}
 	cfg := &invpkg.RegistryConfig{
 		FinalCltvRejectDelta:        rejectDelta,
 		HtlcHoldDuration:            holdDur,
@@ -1097,7 +1156,142 @@ func (s *side) start() error {
 		s.reg = nil
 		return fmt.Errorf("registry start (%s): %w", s.name, err)
 	}
+	if k.Watch {
+		// hand-over of the block the watcher already knows: afterwards its goroutine is in mainLoop
+		s.wgid = 0
+		s.epoch(s.wHeight)
+		gid, err := findWatcherGoroutine(watcher)
+		if err == nil && s.stalled != "" {
+			err = errors.New(s.stalled)
+		}
+		if err != nil {
+			_ = s.reg.Stop()
+			s.reg = nil
+			return fmt.Errorf("registry start (%s): %w", s.name, err)
+		}
+		s.wgid = gid
+		s.waitWatcherIdle()
+	}
 	return nil
+}
+
+// --- quiescence of the live expiry watcher ------------------------------------------------------
+//
+// The watcher is an actor of its own: one goroutine (InvoiceExpiryWatcher.mainLoop) that selects
+// on its clock, its height queue, the registry's AddInvoices hand-over and the block epochs, and
+// calls the registry's cancelInvoiceImpl. The harness cannot wrap that callback (the registry
+// passes its own closure to the concrete type), so it determines the END of the watcher's
+// reaction to an event from the runtime: the watcher has finished iff its goroutine is parked
+// in mainLoop's select. A goroutine parked there found no case ready; a case can become ready only
+// through the harness thread (clock advance, epoch send, AddInvoices inside a registry call), and
+// each of those hand-overs marks the goroutine runnable before the sending call returns. The
+// goroutine dump is read only to decide how long to WAIT (a completion signal like the hodl
+// channel of the "t" event); no verdict depends on timing, and stallGuard only ends the world.
+
+var stackBufs = sync.Pool{New: func() any { b := make([]byte, 1<<20); return &b }}
+
+func allStacks() string {
+	bp := stackBufs.Get().(*[]byte)
+	for {
+		n := runtime.Stack(*bp, true)
+		if n < len(*bp) {
+			out := string((*bp)[:n])
+			stackBufs.Put(bp)
+			return out
+		}
+		b := make([]byte, 2*len(*bp))
+		bp = &b
+	}
+}
+
+const watcherLoopFrame = "InvoiceExpiryWatcher).mainLoop("
+
+// findWatcherGoroutine identifies the mainLoop goroutine of the given watcher. The caller has
+// just completed a hand-over on the watcher's (unbuffered) epoch channel, so the goroutine has
+// entered mainLoop; its frame is printed with the receiver as first argument.
+func findWatcherGoroutine(watcher *invpkg.InvoiceExpiryWatcher) (int64, error) {
+	frame := fmt.Sprintf("%s%p,", watcherLoopFrame, watcher)
+	var found []int64
+	st := allStacks()
+	for _, blk := range strings.Split(st, "\n\n") {
+		if !strings.HasPrefix(blk, "goroutine ") || !strings.Contains(blk, frame) {
+			continue
+		}
+		f := strings.Fields(blk)
+		if id, err := strconv.ParseInt(f[1], 10, 64); err == nil {
+			found = append(found, id)
+		}
+	}
+	if len(found) != 1 {
+		return 0, fmt.Errorf("cannot identify the expiry watcher's goroutine (%d goroutines show the frame %s)", len(found), frame)
+	}
+	return found[0], nil
+}
+
+// watcherIdle reports whether the watcher goroutine is parked in mainLoop's select (or gone).
+func (s *side) watcherIdle() bool {
+	st := allStacks()
+	hdr := fmt.Sprintf("goroutine %d [", s.wgid)
+	i := 0
+	if !strings.HasPrefix(st, hdr) {
+		i = strings.Index(st, "\n"+hdr)
+		if i < 0 {
+			return true // the goroutine has exited (watcher stopped)
+		}
+		i++
+	}
+	blk := st[i:]
+	if j := strings.Index(blk, "\n\n"); j >= 0 {
+		blk = blk[:j]
+	}
+	lines := strings.SplitN(blk, "\n", 3)
+	if len(lines) < 2 {
+		return false
+	}
+	status := lines[0][len(hdr):]
+	return strings.HasPrefix(status, "select") && strings.Contains(lines[1], watcherLoopFrame)
+}
+
+// waitWatcherIdle waits until the watcher has finished reacting (see above).
+func (s *side) waitWatcherIdle() {
+	if !s.kind.Watch || s.reg == nil || s.wgid == 0 {
+		return
+	}
+	deadline := time.Now().Add(stallGuard)
+	for d := 20 * time.Microsecond; ; {
+		runtime.Gosched()
+		if s.watcherIdle() {
+			return
+		}
+		if time.Now().After(deadline) {
+			s.stalled = fmt.Sprintf("expiry watcher of %s not idle within %v", s.name, stallGuard)
+			return
+		}
+		time.Sleep(d)
+		if d < 2*time.Millisecond {
+			d *= 2
+		}
+	}
+}
+
+// expire moves the watcher's clock past the time expiry of the invoice under test.
+func (s *side) expire() {
+	s.wclk.Advance(expiryJump)
+	s.waitWatcherIdle()
+}
+
+// epoch hands the watcher the block at the given height.
+func (s *side) epoch(height int32) {
+	s.wHeight = height
+	guard := time.NewTimer(stallGuard)
+	defer guard.Stop()
+	select {
+	case s.epochs <- &chainntnfs.BlockEpoch{Height: height}:
+	case <-guard.C:
+		s.stalled = fmt.Sprintf("expiry watcher of %s did not take the block epoch within %v", s.name, stallGuard)
+		return
+	}
+	s.waitWatcherIdle()
 }
 
 // restart stops the registry and starts a new one on the same store: the hodl subscriptions and
